@@ -5,6 +5,7 @@
 From Coq Require Import List NArith ZArith Strings.Byte Bool.
 From HV Require Import Lib.Dec Lib.Utf8 Model.Wire Model.WireSem Model.Enc Model.Abs
                        Proofs.WireProofs Proofs.EncProofs.
+From HV Require Import Model.DecAct Model.DecVal Model.DecSpec Proofs.DecValProofs Proofs.RoundTripProofs.
 Import ListNotations.
 
 (* "encoding succeeds without panicking": on every closed heap, for every value, in both modes, the
@@ -30,3 +31,43 @@ Example closed_heap_example :
   (exists st w, enc false hp 10 einit (GPtr 1) = EOk st w) /\
   enc true [] 5 einit (GTime 10000 1 1 0 0 0 0 true) = EPanic 1.
 Proof. vm_compute. repeat split; try reflexivity. eexists. eexists. reflexivity. Qed.
+
+(* ============================================================ decoder half (C06 development) *)
+
+(* C01_roundtrip, proved part.  For every Go value v of a scalar type t ([has_type]: bool, the 11
+   integer kinds with every value of their range, float32/64 and complex64/128 with zero imaginary
+   part, string - any byte string, valid UTF-8 or not -, []byte, time.Time with calendar fields of
+   years 0..9999, uuid.UUID, big.Int, big.Float, big.Rat), in both modes, with any decoder options:
+   the token the encoder model writes decodes, with the decoder model, into a zero-initialised
+   variable of type t as exactly that value ([same]: equality; a time keeps its fields and its
+   UTC-versus-local flag).
+   Oracle premises are part of [has_type]: a float / big.Float / non-integral big.Rat is given by the
+   text the standard library formats it to, and that text parses back to itself (strconv and math/big
+   round trip, checked against the real library by the correspondence run).
+   Guard / what is missing: top-level scalar destinations only.  Pointers, interface{} positions,
+   slices, arrays, maps and structs (the tree fragment) and shared or cyclic graphs are not proved
+   here: the decoder model is a store-passing interpreter (Model/DecVal.v) and the frame reasoning for
+   containers has not been done; those cells are covered on every run by the correspondence of the
+   decoder model with io.Decoder (checks/C06.py: ~27,000 cases, all container positions) and by the
+   direct Unmarshal(Marshal(v)) oracle of checks/C01.py. *)
+Theorem C01_roundtrip_partial :
+  forall orc opts te simple t v fuel st' w f,
+    has_type orc t v = true ->
+    enc simple [] fuel einit v = EOk st' w ->
+    exists y, dec_top orc opts te (S (S f)) t w = OOk y /\ same y v = true.
+Proof. exact roundtrip_scalar. Qed.
+Print Assumptions C01_roundtrip_partial.
+
+(* the typed fragment is inhabited at the boundaries: extreme integers, the empty and a non-UTF-8
+   string, a leap day, the last representable instant *)
+Example roundtrip_instances :
+  let orc := fun (_ _ : bytes) => @None bytes in
+  has_type orc (TInt KInt8) (GInt KInt8 (-128)) = true /\ has_type orc (TInt KUint64) (GInt KUint64 18446744073709551615) = true /\
+  has_type orc (TInt KInt8) (GInt KInt8 128) = false /\
+  has_type orc TString (GString []) = true /\ has_type orc TString (GString ["255"%byte]) = true /\
+  has_type orc TTime (GTime 2020 2 29 0 0 0 0 true) = true /\ has_type orc TTime (GTime 9999 12 31 23 59 59 999999999 false) = true /\
+  (exists st w y, enc false [] 5 einit (GInt KUint64 18446744073709551615) = EOk st w /\
+                  dec_top orc {| o_simple := false; o_long := LtInt; o_real := RlF64; o_simap := false; o_structval := false;
+                                 o_listslice := false; o_registered := [] |} [] 5 (TInt KUint64) w = OOk y /\
+                  same y (GInt KUint64 18446744073709551615) = true).
+Proof. vm_compute. repeat split; try reflexivity. do 3 eexists. repeat split; reflexivity. Qed.
